@@ -527,6 +527,34 @@ func (d *driver) ops(w *world.World, depth int, path []string) []engine.Op {
 		res.Nontrivial[fmt.Sprintf("%s|grant-with-stake|%d", d.sc.name, d.now()-d.t0)] = true
 		return "ok", nm
 	})
+	// the funder merges a second grant whose lockup and vesting schedules differ: no lockup, all of it
+	// vesting 30 s from now (a merge that mixed the two schedules up would make it vested at once)
+	add("mergeGrant(no-lockup,vests+30s)", func(p []string, res *engine.Result, m model) (string, model) {
+		if _, isV := d.tracked(m); !isV {
+			return "skip", m
+		}
+		start := d.now()
+		ps := []rm.Period{P(30, 600)}
+		msg := vtypes.NewMsgCreateClawbackVestingAccount(d.F, d.V, time.Unix(start, 0).UTC(), nil, toSDK(ps), true)
+		fbz, err := w.CosmosTx(w.Ctx(), world.CosmosSpec{Key: w.Keys[1], Msgs: []sdk.Msg{msg}, Gas: 3000000})
+		if err != nil {
+			panic(err)
+		}
+		pre := d.bal()
+		r := w.Deliver(fbz)
+		if r.Code != 0 {
+			return "rejected", m
+		}
+		res.Evaluations++
+		nm := m
+		nm.vest = rm.Union(m.vest, rm.FromPeriods(start, ps))
+		nm.lock = rm.Union(m.lock, rm.FromPeriods(start, []rm.Period{{Len: 0, A: rm.One(world.Denom, 600)}}))
+		if got := d.bal().Sub(pre); !got.Equal(sdkmath.NewInt(600)) {
+			d.viol(res, "merge-grant", "amount", "a merged grant did not add exactly its total to the account", p, map[string]any{"got": got.String()})
+		}
+		res.Nontrivial[fmt.Sprintf("%s|merge-grant|%d", d.sc.name, d.now()-d.t0)] = true
+		return "ok", nm
+	})
 	// part of the locked (fully vested) coins is liquidated: they leave the account by design; what
 	// stays must keep its original unlock time.  Modelled where exactly one lockup event is still to
 	// come (the general split over several periods is C11's subject)
@@ -747,7 +775,7 @@ func Run(tier string) int {
 	res.Sample(map[string]any{"path": []string{"schedule=lock[20:4000]-vest[10:4000]", "time(+11)", "delegate-precompile(max)", "eth-contract-forward(sp+1)"}})
 	return engine.Finish(res, engine.Meta{
 		Property: Prop, Tier: tier, Level: "model_checking", Start: start,
-		Rule:   "per schedule fixture: all sequences <= depth over 36 spend operations (9 paths x {1, spendable, spendable+1, balance}), 9 delegations (message / authz exec / staking precompile x {1, max, max+1}), undelegate, a partly vested second grant with automatic staking, conversion back to a plain account, liquidation of half of the locked coins (the model keeps the original unlock times), block boundary (unbonding completion), slash, clawback, 7 time jumps; every transaction through the real DeliverTx; plus a two-denomination fixture (lockup and vesting in opposite order per denomination) with a per-denomination locked reference; non-trivial = operation that moved coins, distinct by (schedule, path, amount class, time)",
+		Rule:   "per schedule fixture: all sequences <= depth over 36 spend operations (9 paths x {1, spendable, spendable+1, balance}), 9 delegations (message / authz exec / staking precompile x {1, max, max+1}), undelegate, a partly vested second grant with automatic staking, a merged second grant without lockup that vests later, conversion back to a plain account, liquidation of half of the locked coins (the model keeps the original unlock times), block boundary (unbonding completion), slash, clawback, 7 time jumps; every transaction through the real DeliverTx; plus a two-denomination fixture (lockup and vesting in opposite order per denomination) with a per-denomination locked reference; non-trivial = operation that moved coins, distinct by (schedule, path, amount class, time)",
 		Bounds: map[string]any{"depth": depth, "schedules": len(schedules(tier))},
 		Assumptions: []string{
 			"reference = step functions from the grant parameters; tracked delegation read from the account but bounded by the reference's own delegation counter",
